@@ -16,6 +16,10 @@ class HarnessError(Exception):
     pass
 
 
+class StopExploration(Exception):
+    """abandon the exploration of this program (a non-terminating execution was reported)"""
+
+
 class ExecutionTimeout(KeyboardInterrupt):
     """One execution exceeded its wall-clock cap (KeyboardInterrupt subclass so that asyncio's
     Task / Handle machinery re-raises it instead of storing it in a task)."""
@@ -42,6 +46,10 @@ class Program:
     post: Callable[[dict[str, int]], list[tuple[str, dict[str, Any], str]]] | None = None
     min_concurrency: int = 0
     time_budget_s: float | None = None  # wall-clock cap for exploring this program (reported as a cap)
+    # (clause, witness): a single execution that exceeds the per-execution wall-clock cap (tens of seconds for work
+    # that takes milliseconds) is reported as this violation - the code under test spins without ever suspending -
+    # instead of as a harness error.  Only for programs whose executions cannot legitimately take long.
+    nontermination: tuple[str, dict[str, Any]] | None = None
 
 
 @dataclass
@@ -82,6 +90,14 @@ def _run_one(idx: int) -> ProgResult:
         try:
             obs, viols = p.execute(ex)
         except ExecutionTimeout:
+            if p.nontermination is not None:
+                signal.setitimer(signal.ITIMER_REAL, 0)
+                clause, witness = p.nontermination
+                if len(pr.violations) < 20:
+                    pr.violations.append((clause, witness, f"execution did not terminate within {EXEC_CAP_S}s wall clock "
+                                          f"(a task spins without suspending); choices so far {ex.taken}",
+                                          {"program": p.name, "params": p.params, "choices": list(ex.taken), "labels": ex.labels[:60]}))
+                raise StopExploration()
             raise HarnessError(
                 f"execution exceeded {EXEC_CAP_S}s wall clock (non-terminating code under test?) "
                 f"program={p.name} choices={ex.taken}")
@@ -123,6 +139,10 @@ def _run_one(idx: int) -> ProgResult:
             run_fn, max_dev=p.max_dev, max_execs=p.max_execs, prune=p.prune, outcome_key=p.outcome_key,
             deadline=(_t.perf_counter() + budget) if budget else None,
         )
+    except StopExploration:
+        pr.executions = 1
+        pr.caps = ["nonterminating_execution"]
+        return pr
     except BaseException:  # noqa: BLE001
         pr.error = traceback.format_exc()
         return pr
